@@ -112,6 +112,10 @@ class Comment(Base):
     author_id = sa.Column(sa.ForeignKey("author.id"))
     post = relationship("Post", back_populates="comments")
     author = relationship("Author", back_populates="comments")
+    # self-referential collection (adjacency list)
+    parent_id = sa.Column(sa.ForeignKey("comment.id"))
+    replies = relationship("Comment", back_populates="parent")
+    parent = relationship("Comment", back_populates="replies", remote_side=[id])
 
 
 # schema decorations a translation might consult: partial / plain / unique indexes
